@@ -193,6 +193,12 @@ extern "C" void c06_for_run()
 // K2a: FORALLStatement::finalizeControl from an arbitrary iteration record: whatever route leaves the loop
 // (end, break, return, error unstacking) goes through it; iterator type / safety / lock and the table's lock
 // must be the saved ones afterwards.
+/* the iterated expression: 0 the table variable itself; 1 a selection inside a variable (t.at(i), t@n: forwards the variable's symbol
+ * id but is not a variable name) - doit() iterates over the variable's own storage in both cases */
+#ifndef VX_FEXP
+#define VX_FEXP 0
+#endif
+struct InsideVar : SymExpr { unsigned sid; unsigned symbolId() const override { return sid; } };
 extern "C" void c06_forall_final()
 {
   static Context ctx(1, 2);
@@ -200,7 +206,12 @@ extern "C" void c06_forall_final()
   Symbol& iv = ctx.registerSymbol("I", Type::INTEGER);
   Symbol& tv = ctx.registerSymbol("T", Type(Type::INTEGER, 0, 1));
   static FORALLStatement f;
-  f._var = new VariableExpression(iv); f._exp = new VariableExpression(tv);
+  f._var = new VariableExpression(iv);
+#if VX_FEXP == 0
+  f._exp = new VariableExpression(tv);
+#else
+  { InsideVar* iv2 = new InsideVar(); iv2->sid = tv.id(); iv2->t = Type(Type::INTEGER, 0, 1); f._exp = iv2; }
+#endif
   bool it_safe = in_bool(0), it_lock = in_bool(1), ex_lock = in_bool(2);
   /* state inside the loop body as doit() set it up */
   iv.safety(true); iv.locked(ex_lock); tv.locked(true);
@@ -216,6 +227,8 @@ extern "C" void c06_forall_final()
   Value& itv = ctx.loadVariable(iv.id());
   verif_assert(itv.isNull() && itv.type() == Type(Type::INTEGER) && itv.lvalue(), "C06: the iterator variable no longer points into the table after the loop");
   verif_assert(!elem.isNull() && *elem.integer() == 5, "C06: the table element is untouched by leaving the loop");
+  Value& tab = ctx.loadVariable(tv.id());
+  verif_assert(tab.type() == Type(Type::INTEGER, 0, 1), "C06/C17/C09: storage iterated in place (a variable or a selection inside one) is still owned by the variable after the loop");
 }
 
 // K2b: first entry and re-entries of forall over a table variable of 2 integers: visit order, pointer iterator,
